@@ -210,12 +210,18 @@ func (l *obsListener) close() {
 type poolAddr struct {
 	IP    string
 	Class string
+	// TwinOf: this address is an IPv6 form that embeds the IPv4 pool address TwinOf
+	TwinOf string
 }
 
 var poolCandidates = []poolAddr{
-	{"127.0.0.1", "loopback"}, {"127.0.0.2", "loopback"}, {"127.9.8.7", "loopback"}, {"::1", "v6-loopback"},
-	{"10.77.0.1", "private"}, {"172.16.5.1", "private"}, {"192.168.77.1", "private"},
-	{"169.254.169.254", "metadata-linklocal"}, {"100.64.0.1", "cgnat"}, {"fd12::1", "ula"},
+	{IP: "127.0.0.1", Class: "loopback"}, {IP: "127.0.0.2", Class: "loopback"}, {IP: "127.9.8.7", Class: "loopback"}, {IP: "::1", Class: "v6-loopback"},
+	{IP: "10.77.0.1", Class: "private"}, {IP: "172.16.5.1", Class: "private"}, {IP: "192.168.77.1", Class: "private"},
+	{IP: "169.254.169.254", Class: "metadata-linklocal"}, {IP: "100.64.0.1", Class: "cgnat"}, {IP: "fd12::1", Class: "ula"},
+	{IP: "64:ff9b::7f00:1", Class: "embedded-nat64", TwinOf: "127.0.0.1"}, {IP: "2002:7f00:1::1", Class: "embedded-6to4", TwinOf: "127.0.0.1"},
+	{IP: "::ffff:0:7f00:1", Class: "embedded-translated", TwinOf: "127.0.0.1"}, {IP: "::7f00:1", Class: "embedded-compatible", TwinOf: "127.0.0.1"},
+	{IP: "64:ff9b::a9fe:a9fe", Class: "embedded-nat64", TwinOf: "169.254.169.254"}, {IP: "2002:a9fe:a9fe::1", Class: "embedded-6to4", TwinOf: "169.254.169.254"},
+	{IP: "64:ff9b::a4d:1", Class: "embedded-nat64", TwinOf: "10.77.0.1"},
 }
 
 func classOfLocal(a netip.Addr) string {
@@ -347,6 +353,7 @@ type e2eCase struct {
 	SecretBackend  bool         `json:"secret_backend"`
 	Answers        [][]candSpec `json:"answers"`
 	SystemResolver bool         `json:"system_resolver"`
+	Twin           bool         `json:"embedded_twin,omitempty"`
 	Reqs           []reqSpec    `json:"requests"`
 	TimeoutMs      int          `json:"timeout_ms"`
 	MaxBytes       int64        `json:"max_bytes"`
@@ -619,6 +626,66 @@ func genE2ECase(t *rapid.T, pool []poolAddr) e2eCase {
 	}
 	c.TimeoutMs = rapid.SampledFrom([]int{40, 80, 150}).Draw(t, "timeout-ms")
 	c.MaxBytes = rapid.SampledFrom([]int64{1, 16, 1024, 4 << 20}).Draw(t, "max-bytes")
+
+	// "embedded twin": a carved-out refused IPv4 (IP, port) pair, a listener on an IPv6 form that
+	// embeds the same IPv4 with the same port number, an allowlisted hostname on that port and a
+	// resolver answer that contains the embedded form. The carve-out is for the exact pair only;
+	// the embedded form stays refused at connect time (statement: "every IPv6 form that embeds such
+	// an IPv4 address" is refused "for every resolved candidate").
+	var twins []poolAddr
+	for _, p := range pool {
+		if p.TwinOf == "" {
+			continue
+		}
+		for _, q := range pool {
+			if q.IP == p.TwinOf {
+				twins = append(twins, p)
+			}
+		}
+	}
+	if len(twins) > 0 && rapid.IntRange(0, 5).Draw(t, "twin-scenario") == 3 {
+		tw := rapid.SampledFrom(twins).Draw(t, "twin")
+		c.Twin = true
+		l0 := lsnSpec{Addr: tw.TwinOf, SharePort: -1, Mode: "ok", Status: 302, BodyLen: 2}
+		l1 := lsnSpec{Addr: tw.IP, SharePort: 0, Mode: rapid.SampledFrom([]string{"ok", "close"}).Draw(t, "twin-mode"), Status: 302, BodyLen: 2}
+		c.Listeners = []lsnSpec{l0, l1}
+		host := rapid.SampledFrom(hostnames[:3]).Draw(t, "twin-host")
+		carve := allowSpec{Scheme: rapid.SampledFrom([]string{"http", "https"}).Draw(t, "twin-carve-scheme"),
+			Host: altIPText(t, tw.TwinOf, "twin-carve-form"), Port: portRef{Of: 0}}
+		hostEntry := allowSpec{Scheme: rapid.SampledFrom([]string{"", "https"}).Draw(t, "twin-host-scheme"), Host: host, Port: portRef{Of: 0}}
+		c.Allow = []allowSpec{carve, hostEntry}
+		c.CeilingMode = rapid.SampledFrom([]string{"none", "none", "unrestricted", "restricted"}).Draw(t, "twin-ceiling")
+		c.CeilingKeep = nil
+		if c.CeilingMode == "restricted" {
+			c.CeilingKeep = []int{0, 1}
+		}
+		// answer sets: the embedded form, optionally next to the carved-out address itself and a public one
+		set := []candSpec{{IP: tw.IP, As16: true}}
+		if rapid.Bool().Draw(t, "twin-with-v4") {
+			set = append(set, candSpec{IP: tw.TwinOf, As16: rapid.Bool().Draw(t, "twin-v4-as16")})
+		}
+		if rapid.Bool().Draw(t, "twin-with-public") {
+			set = append([]candSpec{{IP: rapid.SampledFrom(publicRemote).Draw(t, "twin-public")}}, set...)
+		}
+		if rapid.Bool().Draw(t, "twin-embedded-last") && len(set) > 1 {
+			set[0], set[len(set)-1] = set[len(set)-1], set[0]
+		}
+		c.Answers = [][]candSpec{set}
+		c.SystemResolver = false
+		r := c.Reqs[0]
+		r.Scheme, r.Userinfo, r.Host, r.Port = "https", "", host, portRef{Of: 0}
+		if rapid.Bool().Draw(t, "twin-host-upper") {
+			r.Host = strings.ToUpper(host)
+		}
+		// harmless headers only: a hostile header would make the request invalid before any dial
+		r.Headers = nil
+		c.Reqs = append([]reqSpec{r}, c.Reqs[1:]...)
+		for i := 1; i < len(c.Reqs); i++ { // other requests may only refer to the two listeners that exist
+			if c.Reqs[i].Port.Of > 1 {
+				c.Reqs[i].Port.Of = rapid.IntRange(0, 1).Draw(t, "twin-req-port")
+			}
+		}
+	}
 	return c
 }
 
@@ -1106,6 +1173,9 @@ func (e *e2eEnv) runE2ECase(c e2eCase) (res e2eResult) {
 		res.Classes = append(res.Classes, "e2e:mixed-public-and-refused-answer")
 	}
 	res.Classes = append(res.Classes, "e2e:ceiling-"+c.CeilingMode)
+	if c.Twin {
+		res.Classes = append(res.Classes, "e2e:embedded-twin-of-carved-out-pair")
+	}
 	res.NonTrivial = carve || mixed
 	return res
 }
